@@ -25,7 +25,8 @@ THEOREMS = ["Ymq.C04.sched_inv", "Ymq.C04.sched_done_monotone", "Ymq.C04.sched_b
             "Ymq.C04.sched_relations_valid", "Ymq.C04.sched_no_panic",
             "Ymq.C04Shape.sched_inv_shape", "Ymq.C04Shape.sched_inv_any_programs", "Ymq.C04Shape.shape_adds_exactly", "Ymq.C04Shape.source_shapes_ok",
             "Ymq.C04Shape.qs_adds_exactly", "Ymq.C04Shape.qs_block_interleaving", "Ymq.C04Shape.ecm_flag_sound",
-            "Ymq.C04Shape.source_named_ok", "Ymq.C04Shape.source_fork_ok", "Ymq.C04Shape.source_ecm_unit_ok"]
+            "Ymq.C04Shape.source_named_ok", "Ymq.C04Shape.source_fork_ok", "Ymq.C04Shape.source_ecm_unit_ok",
+            "Ymq.C04Shape.sched_inv_units"]
 PROFILES = ["release", "chk"]
 TIMEOUT = 180.0
 RULE = ("boundary family first, in both tiers: pools on siqs/mpqs/qs at exactly 65 bits, siqs at 129, ecm at 65..500 and auto at 65..500 bits "
